@@ -95,6 +95,7 @@ InitState(env) ==
    status |-> "run",
    err    |-> <<>>,
    steps  |-> 0,
+   oi     |-> <<>>,      \* the output as a sequence of items (what a second run over the output reads; C06 fixpoint)
    dev    |-> {}]        \* deviations that actually fired (for attribution of known findings)
 
 Top(st) == Last(st.stack)
@@ -121,7 +122,8 @@ EmitTok(out, t, tag, glue) ==
     ELSE Append(out, [t |-> t, o |-> tag, g |-> glue, c |-> FALSE])
 NoGlue(out) == IF out # <<>> /\ Last(out).g THEN Append(Front(out), [Last(out) EXCEPT !.g = FALSE]) ELSE out
 EmitCmt(out, t, tag) == Append(NoGlue(out), [t |-> t, o |-> tag, g |-> FALSE, c |-> TRUE])
-Unglue(st) == [st EXCEPT !.out = NoGlue(@)]
+Unglue(st) == [st EXCEPT !.out = NoGlue(@),
+                          !.oi = IF @ # <<>> /\ Last(@).g THEN Append(Front(@), [Last(@) EXCEPT !.g = FALSE]) ELSE @]
 
 RECURSIVE EmitItemToks(_, _, _, _)
 EmitItemToks(out, it, fr, j) ==
@@ -130,7 +132,7 @@ EmitItemToks(out, it, fr, j) ==
            glue == j = Len(it.ts) /\ it.g
        IN EmitItemToks(EmitTok(out, it.ts[j], tag, glue), it, fr, j + 1)
 
-EmitItem(st, it) == [st EXCEPT !.out = EmitItemToks(st.out, it, Top(st), 1)]
+EmitItem(st, it) == [st EXCEPT !.out = EmitItemToks(st.out, it, Top(st), 1), !.oi = Append(@, it)]
 
 -----------------------------------------------------------------------------
 (* macro expansion: IEEE 1800-2017 22.5.1 *)
@@ -193,6 +195,7 @@ BodyItem(t) ==
     [] t.k = "use" -> <<BItem("use", t.n, t.a, <<>>, t.g)>>
     [] t.k = "pos" -> <<BItem("pos", t.n, <<>>, <<>>, t.g)>>
     [] t.k = "gap" -> <<BItem("gap", "", <<>>, <<>>, FALSE)>>
+    [] t.k = "cmt" -> <<BItem("cmt", t.n, <<>>, <<t.n>>, t.g)>>     \* a block comment inside a body is part of the expansion
     [] t.k = "inc" -> <<BItem("inc", t.n, <<>>, <<>>, FALSE)>>      \* a body that contains `include "f"
     [] OTHER -> <<>>       \* "cont" (line continuation) and "lcmt" (// comment) contribute no token
 RECURSIVE BodyItems(_)
@@ -383,7 +386,8 @@ StepDefine(st, fr, it) ==
 StepPos(st, fr, it) ==
   LET t == IF it.n = "__FILE__" THEN "\"" \o fr.file \o "\""
            ELSE IF fr.kind = "file" THEN ToString(it.ln) ELSE "<num>"
-  IN Advance([st EXCEPT !.out = EmitTok(@, t, Tag("syn", "", 0), FALSE)])
+  IN Advance([st EXCEPT !.out = EmitTok(@, t, Tag("syn", "", 0), FALSE),
+                        !.oi = Append(@, BItem(IF it.n = "__FILE__" THEN "str" ELSE "tok", t, <<>>, <<t>>, FALSE))])
 
 \* items inside a discarded branch have no effect and raise no error; only the conditional
 \* directives themselves are followed (nesting)
@@ -407,7 +411,8 @@ StepLive(st0, env, fr, it) ==
   CASE it.k \in {"tok", "kept"} -> Advance(EmitItem(st, it))
     [] it.k = "str"      -> StepStr(st, fr, it)
     [] it.k = "cmt"      -> IF env.strip THEN Advance(StripCmt(st, it))
-                            ELSE Advance([st EXCEPT !.out = EmitCmt(@, IF it.ts # <<>> THEN it.ts[1] ELSE it.n, IF fr.org = NoTag THEN Tag("copy", fr.file, it.off) ELSE fr.org)])
+                            ELSE Advance([st EXCEPT !.out = EmitCmt(@, IF it.ts # <<>> THEN it.ts[1] ELSE it.n, IF fr.org = NoTag THEN Tag("copy", fr.file, it.off) ELSE fr.org),
+                                                  !.oi = Append(@, it)])
     [] it.k \in {"nl", "gap"} -> Advance(Unglue(st))
     [] it.k = "def"      -> StepDefine(st, fr, it)
     [] it.k = "undef"    -> Advance(EmitItem([st EXCEPT !.defs = DefDel(@, it.n)], it))
